@@ -464,6 +464,11 @@ class UserManager(BaseManager):
             self.reset_users()
 
     async def _on_session_initialized(self, event: SessionInitializedEvent):
+        if self._network.server_connection.state != ConnectionState.CONNECTED:
+            # The connection was lost while the event was being dispatched, the
+            # session is already destroyed
+            return
+
         self._session = event.session
         await self._network.send_server_messages(
             CheckPrivileges.Request(),
